@@ -84,6 +84,8 @@ type Spec[C any] struct {
 	// Risky: write every case to a scratch file before evaluating it so
 	// that the driver can attribute the death of the process to a case.
 	Risky bool
+	// RiskyCase: like Risky, for the cases it says yes to (checks whose cheap bulk cannot kill the process)
+	RiskyCase func(C) bool
 	// MaxSamples bounds the number of samples kept (default 8).
 	MaxSamples int
 	// Extra is called once at the end; what it returns is merged into the
@@ -478,7 +480,7 @@ func (r *runner[C]) eval(c C, phase string) []Violation { return r.evalFrom(c, p
 
 // evalFrom runs the oracle on c and returns the unexplained violations.
 func (r *runner[C]) evalFrom(c C, phase, file string) []Violation {
-	if r.spec.Risky && r.curFile != "" {
+	if (r.spec.Risky || (r.spec.RiskyCase != nil && r.spec.RiskyCase(c))) && r.curFile != "" {
 		if b, err := json.Marshal(c); err == nil {
 			rf, _ := json.Marshal(ReplayFile{Property: r.spec.ID, Case: b, Tier: r.env.Tier, Seed: r.env.Seed, Note: "case in flight when the worker died"})
 			os.WriteFile(r.curFile, rf, 0o644)
